@@ -424,6 +424,8 @@ Proof.
   destruct (split_leb bs) as [[e r]|].
   - destruct ((length e <=? 10)%nat && in_i64 (sval e)); split; discriminate.
   - destruct (10 <=? length bs)%nat; split; discriminate.
+Qed.
+
 (* ================= the 16-bit reader ================= *)
 
 Definition uleb16_spec (bs : list byte) : res (N * list byte) :=
